@@ -59,7 +59,7 @@ def verify(prop, v):
         rc, out = run_demo(src, wt)
         res["demo_with_change"] = "fail" if rc != 0 else "PASSES(unexpected)"
         res["demo_with_output_tail"] = out[-600:]
-        _, diff = sh("git diff", cwd=wt)
+        _, diff = sh("git diff HEAD", cwd=wt)
         ok = res["demo_without_change"] == "pass" and res["builds"] and res["baseline_ok"] and res["demo_with_change"] == "fail"
         res["confirmed"] = ok
         if ok:
